@@ -20,7 +20,10 @@ RULE = ('conversions and apply_* routines on Gaussian-integer data for (dim_in, 
 TRUSTED = ['Lean 4.33 kernel', 'axioms: propext, Classical.choice, Quot.sound', 'Lean compiler for the driver executable',
            'harness/c12.py canonicalisation (integers as re,im; binary64 values of the noise-channel Kraus entries as exact rationals); '
            'interception of np.linalg.eigh inside choi_op_to_kraus_op for the exact tie of its reshape/transpose/cut',
-           'modelled, not verified: numqi/channel/_internal.py; contracts: np.linalg.eigh (probed with tolerance 1e-9), BLAS matmul on integers exact']
+           'modelled, not verified: the numqi.channel conversion / apply functions and the metric functions of numqi.utils; contracts: np.linalg.eigh (its output is data in c2kf, '
+           'chosen integers in c2k/s2k/hf2k; probed with tolerance 1e-9) and np.linalg.eigvalsh (the spectrum of rho resp. rho - sigma is data: spec ent/renyi on diagonal states, spec tdev), '
+           'BLAS matmul on integers exact',
+           'scope: the contractivity theorems hold for commuting states under classical (column-stochastic) channels only; non-commuting data processing is probe-only']
 
 
 def guarded(f):
@@ -37,6 +40,8 @@ def gl(a):
     out = []
     for v in a:
         v = complex(v)
+        if not (np.isfinite(v.real) and np.isfinite(v.imag)):
+            return 'nonfinite'
         r, i = round(v.real), round(v.imag)
         if v.real != r or v.imag != i:
             return 'nonintegral'
@@ -124,15 +129,18 @@ def checked(ctx, name, fn, *args):
 
 
 def module_constants():
-    """every module-level ndarray of numqi.gate / numqi.gate.pauli / numqi.channel._internal (shared stacks such as the Pauli matrices)"""
-    import numqi
+    """every module-level ndarray of the loaded modules `numqi.gate*` / `numqi.channel*` (shared stacks such as the Pauli matrices), and of the
+    modules that define the public channel functions — found through `sys.modules` / `fn.__module__`, no private module is named"""
+    import sys, numqi
+    names = {n for n in list(sys.modules) if n == 'numqi.gate' or n.startswith('numqi.gate.') or n == 'numqi.channel' or n.startswith('numqi.channel.')}
+    names |= {getattr(f, '__module__', None) for f in vars(numqi.channel).values() if callable(f)} - {None}
     out = {}
-    for modname, mod in (('numqi.gate', numqi.gate), ('numqi.gate.pauli', numqi.gate.pauli), ('numqi.channel._internal', numqi.channel._internal),
-                         ('numqi.gate._internal', getattr(numqi.gate, '_internal', None))):
+    for modname in sorted(n for n in names if n.startswith('numqi')):
+        mod = sys.modules.get(modname)
         if mod is None:
             continue
-        for k, v in vars(mod).items():
-            if isinstance(v, np.ndarray):
+        for k, v in list(vars(mod).items()):
+            if isinstance(v, np.ndarray) and not any(v is w[0] for w in out.values()):
                 out[f'{modname}.{k}'] = (v, v.copy())
     return out
 
@@ -225,21 +233,53 @@ def eigh_composition_ops(ctx, rng, add):
     for rep in range(16 if ctx.quick() else 120):
         din = int(rng.integers(1, 4)); dout = int(rng.integers(1, 4)); m = din * dout
         nk = max([1, max(1, m // 2), m][rep % 3], -(-din // dout))        # a trace-preserving set needs nk*dout >= din
-        K = numqi.random.rand_kraus_op(nk, din, dout, tag_complex=bool(rep % 2), seed=int(rng.integers(1 << 30)))
-        C = ch.kraus_op_to_choi_op(K)
+        C = guarded(lambda: ch.kraus_op_to_choi_op(numqi.random.rand_kraus_op(nk, din, dout, tag_complex=bool(rep % 2), seed=int(rng.integers(1 << 30)))))
+        if isinstance(C, str):
+            skipped.append('c2kf (input could not be generated: ' + C + ')'); continue
         zero_eps = [None, 1e-10, 1e-3, 0.2, 0.0, 1e-17][rep % 6]
+        eps = 1e-10 if zero_eps is None else zero_eps
+        real_eigh = np.linalg.eigh
         with EighSpy() as spy:
             r = guarded(lambda: ch.choi_op_to_kraus_op(C, din) if zero_eps is None else ch.choi_op_to_kraus_op(C, din, zero_eps))
-        if isinstance(r, str) or len(spy.calls) != 1:
+        if isinstance(r, str):
+            # an exception of the implementation is an answer of its own (`error`), with the decomposition of C as the op's data
+            EVL, EVC = (spy.calls[0][1], spy.calls[0][2]) if len(spy.calls) == 1 else real_eigh(C)
+            add(f'C12 c2kf {din} {dout} {bits(eps)} {";".join(str(bits(x)) for x in EVL)} {";".join(bits_c(z) for z in np.asarray(EVC).reshape(-1))}', lambda r=r: r)
+            continue
+        if len(spy.calls) != 1:
             skipped.append('c2kf'); continue
         _, EVL, EVC = spy.calls[0]
-        eps = 1e-10 if zero_eps is None else zero_eps
         op = f'C12 c2kf {din} {dout} {bits(eps)} {";".join(str(bits(x)) for x in EVL)} {";".join(bits_c(z) for z in EVC.reshape(-1))}'
-        ans = f'{r.shape[0]}|' + ';'.join(bits_c(z) for z in np.asarray(r).reshape(-1))
+        ans = guarded(lambda: f'{r.shape[0]}|' + ';'.join(bits_c(z) for z in np.asarray(r).reshape(-1)))
         add(op, lambda ans=ans: ans)
         ctx.count(f'c2kf-rank{nk}of{m}-zero_eps-{zero_eps}')
     if skipped:
         ctx.note(f'eigh composition ties skipped ({sorted(set(skipped))}): the implementation did not call np.linalg.eigh exactly once; the probes decide')
+
+
+def classical_channel_ops(ctx, rng, add):
+    """the instance of theorem `applyKraus_classical_channel` executed on the real code: the measure-and-prepare Kraus set
+    `K_(i,j) = k_ij |i><j|` (integers `k_ij`, i.e. `M_ij = k_ij^2` up to the common column sum) applied with `apply_kraus_op` to a diagonal
+    integer state gives exactly the diagonal state `diag(M p)`; the same op goes to the model (`applyKraus`, op `apk`)"""
+    import numqi
+    ch = numqi.channel
+    for rep in range(6 if ctx.quick() else 40):
+        d = int(rng.integers(1, 5)); e = int(rng.integers(1, 5))
+        k = rng.integers(0, 4, size=(e, d))
+        K = np.zeros((e * d, e, d), dtype=np.complex128)
+        for i in range(e):
+            for j in range(d):
+                K[i * d + j, i, j] = k[i, j]
+        p = rng.integers(0, 6, size=d)
+        rho = np.diag(p).astype(np.complex128)
+
+        def f(K=K, rho=rho, k=k, p=p):
+            out = ch.apply_kraus_op(K, rho)
+            if not np.array_equal(out, np.diag((k ** 2) @ p)):
+                return 'not-diag(Mp)'
+            return gl(out)
+        add(f'C12 apk {e * d} {e} {d} {gl(K)} {gl(rho)}', f)
+        ctx.count('classical-channel')
 
 
 def purity_ops(ctx, rng, add):
@@ -248,11 +288,11 @@ def purity_ops(ctx, rng, add):
     U = numqi.utils
     for rep in range(8 if ctx.quick() else 60):
         n = int(rng.integers(1, 5))
-        rho = rg(rng, (n, n), 4, True)
+        rho = rg(rng, (n, n), 4, True); rho = rho + rho.conj().T        # Hermitian (the documented domain: on it vdot(rho,rho) = tr(rho rho))
         fmt = lambda v: f'{int(round(float(v)))},0' if float(v) == round(float(v)) else 'nonintegral'
         add(f'C12 pur {n} {gl(rho)}', lambda rho=rho: fmt(checked(ctx, 'get_purity', U.get_purity, rho)))
         add(f'C12 pur {n} {gl(rho)}', lambda rho=rho: fmt(U.get_purity(torch.tensor(rho))))
-        rre = rho.real.copy()
+        rre = rho.real.copy()                                          # real symmetric
         add(f'C12 pur {n} {gl(rre)}', lambda rre=rre: fmt(U.get_purity(rre.astype(np.int64))))
         add(f'C12 pur {n} {gl(rre)}', lambda rre=rre: fmt(U.get_purity(np.asfortranarray(rre))))
 
@@ -306,14 +346,19 @@ def bloch_tie(ctx, rng):
 
 
 def spectral_tie(ctx, rng):
-    """get_von_neumann_entropy / get_fidelity / get_relative_entropy on commuting (diagonal) states against the spectral
-    model executed in binary64 (same formula, libm log): tolerance 1e-12"""
+    """get_von_neumann_entropy / get_fidelity / get_relative_entropy / get_trace_distance / get_Renyi_entropy on commuting (diagonal) states
+    against the spectral model executed in binary64 (same formula, libm log / pow): tolerance 1e-12.  Every call into numqi is guarded: an
+    exception becomes the value `error`, reported as a disagreement of that op (the op line carries the spectrum)."""
     import numqi, torch
     U = numqi.utils
     eps = float(np.finfo(np.float64).eps)
     unbits = lambda s: struct.unpack('<d', struct.pack('<Q', int(s)))[0]
     fl = lambda v: ';'.join(str(bits(x)) for x in v)
     ops, vals = [], []
+
+    def emit(op, *thunks):
+        ops.append(op); vals.append([guarded(lambda t=t: float(t())) for t in thunks])
+    tdev_skipped = 0
     for rep in range(10 if ctx.quick() else 100):
         d = int(rng.integers(1, 6))
         p = rng.uniform(0.05, 1, size=d); p /= p.sum()
@@ -321,40 +366,47 @@ def spectral_tie(ctx, rng):
         if rep % 3 == 0 and d >= 2:
             p[0] = 0.0; p /= p.sum()                # rank-deficient first argument
         ps = np.sort(p)
-        ops.append(f'C12 spec ent {bits(eps)} {fl(ps)}'); vals.append([U.get_von_neumann_entropy(np.diag(p)), float(U.get_von_neumann_entropy(torch.tensor(np.diag(p)))),
-                                                                      U.get_von_neumann_entropy(np.diag(p).astype(np.complex128))])
-        ops.append(f'C12 spec fid {fl(p)} {fl(q)}'); vals.append([U.get_fidelity(np.diag(p), np.diag(q)), float(U.get_fidelity(torch.tensor(np.diag(p)), torch.tensor(np.diag(q))))])
-        ops.append(f'C12 spec rel {bits(eps)} {fl(p)} {fl(q)}'); vals.append([U.get_relative_entropy(np.diag(p), np.diag(q)), float(U.get_relative_entropy(torch.tensor(np.diag(p)), torch.tensor(np.diag(q))))])
+        P, Q = np.diag(p), np.diag(q)
+        emit(f'C12 spec ent {bits(eps)} {fl(ps)}', lambda: U.get_von_neumann_entropy(P), lambda: U.get_von_neumann_entropy(torch.tensor(P)),
+             lambda: U.get_von_neumann_entropy(P.astype(np.complex128)))
+        emit(f'C12 spec fid {fl(p)} {fl(q)}', lambda: U.get_fidelity(P, Q), lambda: U.get_fidelity(torch.tensor(P), torch.tensor(Q)))
+        emit(f'C12 spec rel {bits(eps)} {fl(p)} {fl(q)}', lambda: U.get_relative_entropy(P, Q), lambda: U.get_relative_entropy(torch.tensor(P), torch.tensor(Q)))
         # trace distance of commuting states (eigvalsh of a diagonal matrix is exact; the order of summation differs)
-        ops.append(f'C12 spec td {fl(p)} {fl(q)}'); vals.append([U.get_trace_distance(np.diag(p), np.diag(q)), U.get_trace_distance(np.diag(q).astype(np.complex128), np.diag(p).astype(np.complex128))])
-        # trace distance of general states: the eigenvalues of rho - sigma as returned by the real eigvalsh are passed as data
+        emit(f'C12 spec td {fl(p)} {fl(q)}', lambda: U.get_trace_distance(P, Q), lambda: U.get_trace_distance(Q.astype(np.complex128), P.astype(np.complex128)))
+        # trace distance of general states: the eigenvalues of rho - sigma as returned by the real eigvalsh are passed as data; if the
+        # implementation does not call np.linalg.eigvalsh exactly once, the spectrum computed here (public path) is used instead, with a note
         if d >= 2:
             ra, rb = rand_state(rng, d, 'full'), rand_state(rng, d, 'low')
             rec = []
             orig = np.linalg.eigvalsh
             np.linalg.eigvalsh = lambda a, *k, **kw: (rec.append(orig(a, *k, **kw)), rec[-1])[1]
             try:
-                tdv = U.get_trace_distance(ra, rb)
+                tdv = guarded(lambda: float(U.get_trace_distance(ra, rb)))
             finally:
                 np.linalg.eigvalsh = orig
-            if len(rec) == 1:
-                ops.append(f'C12 spec tdev {fl(rec[0])}'); vals.append([tdv])
+            if len(rec) != 1:
+                tdev_skipped += 1
+            evl_data = rec[0] if len(rec) == 1 else orig(ra - rb)
+            ops.append(f'C12 spec tdev {fl(evl_data)}'); vals.append([tdv])
         # Renyi entropy (numpy, torch) for orders on both sides of 1
         alpha = float([0.5, 2.0, 3.0, 0.3, 1.5, 7.0][rep % 6]) if rep % 2 else float(rng.uniform(0.05, 4.0))
         if alpha != 1.0:
-            ops.append(f'C12 spec renyi {bits(alpha)} {fl(ps)}'); vals.append([U.get_Renyi_entropy(np.diag(p), alpha), float(U.get_Renyi_entropy(torch.tensor(np.diag(p)), alpha))])
+            emit(f'C12 spec renyi {bits(alpha)} {fl(ps)}', lambda: U.get_Renyi_entropy(P, alpha), lambda: U.get_Renyi_entropy(torch.tensor(P), alpha))
         # batched entropy: a (2,3,d,d) stack of diagonal states, numpy and torch; element [i,j] must be the entropy of state [i,j]
         if rep % 3 == 1:
             stack_p = rng.uniform(0.05, 1, size=(2, 3, d)); stack_p /= stack_p.sum(axis=-1, keepdims=True)
             big = np.zeros((2, 3, d, d)); big[..., np.arange(d), np.arange(d)] = stack_p
-            rn = U.get_von_neumann_entropy(big); rt = U.get_von_neumann_entropy(torch.tensor(big)).numpy()
-            if rn.shape != (2, 3) or rt.shape != (2, 3):
-                ctx.disagree('C12 spec ent batched shape', '(2, 3)', f'{rn.shape} / {rt.shape}')
-            else:
-                for i in range(2):
-                    for j in range(3):
-                        ops.append(f'C12 spec ent {bits(eps)} {fl(np.sort(stack_p[i, j]))}'); vals.append([rn[i, j], rt[i, j], U.get_von_neumann_entropy(big[i, j])])
-                ctx.count('spectral-ent-batched')
+            rn = guarded(lambda: np.asarray(U.get_von_neumann_entropy(big))); rt = guarded(lambda: U.get_von_neumann_entropy(torch.tensor(big)).numpy())
+            bad_shape = isinstance(rn, str) or isinstance(rt, str) or rn.shape != (2, 3) or rt.shape != (2, 3)
+            for i in range(2):
+                for j in range(3):
+                    ops.append(f'C12 spec ent {bits(eps)} {fl(np.sort(stack_p[i, j]))}')
+                    vals.append(['error:batched-call' if bad_shape else float(rn[i, j]), 'error:batched-call' if bad_shape else float(rt[i, j]),
+                                 guarded(lambda i=i, j=j: float(U.get_von_neumann_entropy(big[i, j])))])
+            ctx.count('spectral-ent-batched')
+    if tdev_skipped:
+        ctx.note(f'spec tdev: get_trace_distance did not call np.linalg.eigvalsh exactly once in {tdev_skipped} cases; the spectrum of rho - sigma computed by the harness was used as data instead')
+        ctx.count('spectral-tdev-public-path', tdev_skipped)
     model = common.run_model(ops)
     worst = 0.0
     for op, got, mo in zip(ops, vals, model):
@@ -363,6 +415,8 @@ def spectral_tie(ctx, rng):
             ex = unbits(mo)
         except Exception:
             ctx.disagree(op, mo, str(got)); continue
+        if any(isinstance(g, str) for g in got) or not all(np.isfinite(float(g)) for g in got):
+            ctx.disagree(op, repr(ex), repr(['error' if isinstance(g, str) else float(g) for g in got])); continue
         err = max(abs(float(g) - ex) for g in got) / max(1.0, abs(ex))
         worst = max(worst, err)
         if err <= 1e-12:
@@ -371,7 +425,10 @@ def spectral_tie(ctx, rng):
             ctx.disagree(op, repr(ex), repr([float(g) for g in got]))
     ctx.extra['spectral_worst_rel_err'] = worst
     ctx.assumptions.append('spectral tie (diagonal states): tolerance 1e-12; both sides evaluate the same binary64 formula, differences come from the summation order '
-                           'and from sqrt of products; the eigen-decomposition of a diagonal matrix is exact')
+                           'and from sqrt of products; the eigen-decomposition of a diagonal matrix is exact; `spec tdev`: the spectrum of rho - sigma (np.linalg.eigvalsh) is data')
+    ctx.assumptions.append('scope of the contractivity obligations: the theorems trace_distance_classical_contractive / fidelity_classical_monotone / relative_entropy_classical_monotone / '
+                           'classical_channel_preserves_simplex hold for COMMUTING states under classical (column-stochastic) channels only (bridge to the Kraus model: applyKraus_classical); '
+                           'data processing for non-commuting states and general channels is probe-only (keys contractivity:*)')
 
 
 def correspondence(ctx):
@@ -415,15 +472,26 @@ def correspondence(ctx):
             add(f'C12 aps {din} {dout} {gl(H)} {rs}', lambda: gl(ch.apply_super_op(H, rho)))
             add(f'C12 hf2c {din} {dout} {gl(G)}', lambda: gl(ch.hf_channel_to_choi_op(lambda r: ch.apply_choi_op(G, r), din)))
 
-            def hf2s():
-                # hf_channel_to_kraus_op up to its call of super_op_to_kraus_op (intercepted: returns its argument)
-                orig = ch._internal.super_op_to_kraus_op
-                ch._internal.super_op_to_kraus_op = lambda S, *a, **k: S
-                try:
-                    return gl(ch._internal.hf_channel_to_kraus_op(lambda r: ch.apply_choi_op(G, r), din))
-                finally:
-                    ch._internal.super_op_to_kraus_op = orig
-            add(f'C12 hf2s {din} {dout} {gl(G)}', hf2s)
+            # hf_channel_to_kraus_op up to its inner call of super_op_to_kraus_op (intercepted in the namespace the public function itself
+            # uses: returns its argument).  If that name is not there the op is skipped with a note; `hf2k` ties the function end to end.
+            ns = getattr(ch.hf_channel_to_kraus_op, '__globals__', {})
+            if callable(ns.get('super_op_to_kraus_op')):
+                def hf2s(ns=ns):
+                    orig = ns['super_op_to_kraus_op']
+                    seen = []
+                    ns['super_op_to_kraus_op'] = lambda S, *a, **k: (seen.append(1), S)[1]
+                    try:
+                        r = ch.hf_channel_to_kraus_op(lambda r: ch.apply_choi_op(G, r), din)
+                    finally:
+                        ns['super_op_to_kraus_op'] = orig
+                    return gl(r) if seen else None
+                r_hf2s = guarded(hf2s)
+                if r_hf2s is None:
+                    ctx.count('hf2s-skipped')
+                else:
+                    add(f'C12 hf2s {din} {dout} {gl(G)}', lambda r_hf2s=r_hf2s: r_hf2s)
+            else:
+                ctx.count('hf2s-skipped')
             # input classes: the same integer data as int64 / float32 (real case) / complex64, Fortran-ordered and strided views; every
             # call through `checked` (arguments bit-identical afterwards, two calls agree)
             variants = [('c-f-order', np.asfortranarray(K), np.asfortranarray(rho))]
@@ -450,12 +518,14 @@ def correspondence(ctx):
         evl = sorted([-int(x) for x in rng.integers(0, 3, size=n0)]) + sorted(int(x) ** 2 for x in rng.integers(1, 5, size=m - n0))
         evc = rg(rng, (m, m), 3, True)
 
-        def f():
-            with fake_eigh(evl, evc):
-                r = ch.choi_op_to_kraus_op(np.eye(m, dtype=np.complex128), din)
-            return f'{r.shape[0]}|' + gl(r) if r.shape[1:] == (dout, din) else f'shape{r.shape}'
-        add(f'C12 c2k {din} {dout} {";".join(map(str, evl)) or "-"} {gl(evc)}', f)
-        ctx.count('c2k-cut-%s' % ('none' if n0 == 0 else 'all' if n0 == m else 'some'))
+        with EighSpy(fake=(evl, evc)) as spy:
+            r_c2k = guarded(lambda: (lambda r: f'{r.shape[0]}|' + gl(r) if r.shape[1:] == (dout, din) else f'shape{r.shape}')(ch.choi_op_to_kraus_op(np.eye(m, dtype=np.complex128), din)))
+        if len(spy.calls) == 1 or r_c2k.startswith('error'):
+            add(f'C12 c2k {din} {dout} {";".join(map(str, evl)) or "-"} {gl(evc)}', lambda r_c2k=r_c2k: r_c2k)
+            ctx.count('c2k-cut-%s' % ('none' if n0 == 0 else 'all' if n0 == m else 'some'))
+        else:
+            # the implementation obtained its decomposition some other way (e.g. scipy.linalg.eigh): the chosen data was not used
+            ctx.count('c2k-skipped')
     # noise channels: entries must be exactly c0/c1 times the Pauli entries
     rates = [0.0, 1.0, 0.5, 0.25] + [float(x) for x in rng.uniform(0, 1, size=6 if ctx.quick() else 60)]
     for p in rates:
@@ -465,7 +535,11 @@ def correspondence(ctx):
         ctx.count('noise-rate')
     eigh_composition_ops(ctx, rng, add)
     purity_ops(ctx, rng, add)
+    classical_channel_ops(ctx, rng, add)
     check_module_constants(ctx, consts, 'the conversion / apply calls of the exact tie')
+    for key, what in (('c2k-skipped', 'c2k (np.linalg.eigh not called exactly once by choi_op_to_kraus_op)'), ('hf2s-skipped', 'hf2s (inner super_op_to_kraus_op call not interceptable)')):
+        if ctx.hist.get(key):
+            ctx.note(f'tie skipped: {what}; the end-to-end ties / probes decide')
     model = common.run_model(ops)
 
     def nontrivial(op, out):
@@ -646,6 +720,19 @@ def probe(ctx):
                             for kj, r1, _ in states:
                                 f01 = U.get_fidelity(r0, r1); t01 = U.get_trace_distance(r0, r1)
                                 fullrank = min(mineig[id(r0)], mineig[id(r1)]) > 1e-6
+                                # independent oracle for two mixed, non-commuting states (a different route than the implementation's):
+                                # F = (sum of the singular values of sqrt(r0) sqrt(r1))^2;  S(r0||r1) = sum p log p - sum |<u_i|v_j>|^2 p_i log q_j
+                                w0, v0 = np.linalg.eigh(r0); w1, v1 = np.linalg.eigh(r1)
+                                sq0 = (v0 * np.sqrt(np.clip(w0, 0, None))) @ v0.conj().T; sq1 = (v1 * np.sqrt(np.clip(w1, 0, None))) @ v1.conj().T
+                                f_star = float(np.linalg.svd(sq0 @ sq1, compute_uv=False).sum() ** 2)
+                                if abs(f01 - f_star) > (TOL if fullrank else TOL_SQRT):
+                                    msgs.append((f'fidelity {f01:.12g} != (tr|sqrt(rho) sqrt(sigma)|)^2 = {f_star:.12g} ({ki},{kj})', abs(f01 - f_star)))
+                                if fullrank:
+                                    ov = np.abs(v0.conj().T @ v1) ** 2
+                                    s_star = float((w0 * np.log(w0)).sum() - (ov * np.outer(w0, np.log(w1))).sum())
+                                    s01 = U.get_relative_entropy(r0, r1)
+                                    if abs(s01 - s_star) > 1e-9 * max(1.0, abs(s_star)):
+                                        msgs.append((f'relative entropy {s01:.12g} != spectral formula {s_star:.12g} ({ki},{kj})', abs(s01 - s_star)))
                                 tol = TOL if fullrank else 4e-4     # sqrt(1-F) near F=1 turns the 1e-7 fidelity error of rank-deficient states into 3e-4
                                 if not (1 - np.sqrt(max(f01, 0)) - tol <= t01 <= np.sqrt(max(0, 1 - f01)) + tol):
                                     msgs.append((f'Fuchs-van-de-Graaf violated: T={t01:.12g}, F={f01:.12g} ({ki},{kj})', 1.0))
@@ -675,6 +762,17 @@ def probe(ctx):
                                     tol = TOL_SQRT
                                     if abs(a - b) > TOL or abs(a - c) > tol:
                                         msgs.append((f'fidelity vector/matrix branches differ: {a:.12g}, {b:.12g}, {c:.12g} ({kj})', max(abs(a - b), abs(a - c))))
+                                    # the same 1-D branches in the torch backend (vector x matrix, matrix x vector, vector x vector)
+                                    tp, t1 = torch.tensor(psi), torch.tensor(r1)
+                                    at = float(U.get_fidelity(tp, t1)); bt = float(U.get_fidelity(t1, tp))
+                                    want_vm = float((psi.conj() @ r1 @ psi).real)
+                                    if max(abs(at - want_vm), abs(bt - want_vm), abs(a - want_vm)) > TOL:
+                                        msgs.append((f'fidelity of a vector with a matrix: numpy {a:.12g}, torch {at:.12g} / {bt:.12g}, <psi|rho|psi> = {want_vm:.12g} ({kj})', max(abs(at - want_vm), abs(bt - want_vm))))
+                                    w1_, v1_ = np.linalg.eigh(r1); phi = v1_[:, -1]
+                                    want_vv = float(abs(np.vdot(psi, phi)) ** 2)
+                                    vv_n = float(U.get_fidelity(psi, phi)); vv_t = float(U.get_fidelity(tp, torch.tensor(phi)))
+                                    if max(abs(vv_n - want_vv), abs(vv_t - want_vv)) > TOL:
+                                        msgs.append((f'fidelity of two vectors: numpy {vv_n:.12g}, torch {vv_t:.12g}, |<psi|phi>|^2 = {want_vv:.12g}', max(abs(vv_n - want_vv), abs(vv_t - want_vv))))
                                 if abs(U.get_fidelity(psi, psi) - 1) > TOL:
                                     msgs.append(('fidelity(psi,psi) != 1', abs(U.get_fidelity(psi, psi) - 1)))
                     except Exception as e:
@@ -722,6 +820,7 @@ def probe(ctx):
     probe_hardening(ctx, rng)
     probe_renyi(ctx, np.random.default_rng(ctx.np_seed + 31))
     probe_values(ctx, np.random.default_rng(ctx.np_seed + 32))
+    probe_classical(ctx, np.random.default_rng(ctx.np_seed + 33))
     ctx.extra['probe_worst'] = {k: float(v) for k, v in worst.items()}
     ctx.assumptions.append('probe tolerances: 1e-9 for equivalence of representations and for the inequalities on full-rank states; 1e-6 where a '
                            'square root of a rounding-level eigenvalue enters (fidelity with a rank-deficient input or output state: sqrt(2.2e-16*d) ~ 3e-8 per zero eigenvalue, up to 5 of them, doubled by the final squaring; worst observed 3e-8); '
@@ -847,6 +946,52 @@ def probe_hardening(ctx, rng):
 RENYI_KEY = 'renyi-entropy-nan'
 
 
+def probe_classical(ctx, rng):
+    """a classical channel through the real code: random column-stochastic M with dyadic perfect-square entries, Kraus set sqrt(M_ij)|i><j| (exact),
+    `apply_kraus_op` on diag(p), diag(q): outputs are diag(Mp), diag(Mq); then trace distance does not increase, fidelity does not decrease,
+    relative entropy does not increase (the three theorems `*_classical_*`), evaluated with the real metric functions"""
+    import numqi
+    ch = numqi.channel; U = numqi.utils
+    cols = [(16,), (4, 4, 4, 4), (9, 4, 1, 1, 1), (9, 1, 1, 1, 4), (4, 4, 4, 1, 1, 1, 1), (1,) * 16, (9, 4, 1, 1, 1), (4, 9, 1, 1, 1)]
+    for rep in range(8 if ctx.quick() else 60):
+        d = int(rng.integers(2, 5)); e = int(rng.integers(2, 6)); seed = int(rng.integers(1 << 30)); r2 = np.random.default_rng(seed)
+        M = np.zeros((e, d))
+        for j in range(d):
+            # a column of sixteenths that are perfect squares (so that sqrt(M_ij) and its square are exact), padded / replaced to length e
+            c = list(cols[int(r2.integers(len(cols)))])
+            c = c + [0] * (e - len(c)) if len(c) <= e else [16] + [0] * (e - 1)
+            M[:, j] = np.array(r2.permutation(c)) / 16.0
+        p = r2.uniform(0.05, 1, size=d); p /= p.sum(); q = r2.uniform(0.05, 1, size=d); q /= q.sum()
+        info = dict(op='apply_kraus_op with K_(i,j) = sqrt(M_ij)|i><j| on diag(p), diag(q)', M=M.tolist(), p=p.tolist(), q=q.tolist(), seed=seed)
+        try:
+            K = np.zeros((e * d, e, d))
+            for i in range(e):
+                for j in range(d):
+                    K[i * d + j, i, j] = np.sqrt(M[i, j])
+            o0 = ch.apply_kraus_op(K, np.diag(p)); o1 = ch.apply_kraus_op(K, np.diag(q))
+            ok_diag = (np.abs(o0 - np.diag(np.diag(o0))).max() == 0 and np.abs(np.diag(o0).real - M @ p).max() < 1e-15 and abs(np.trace(o0).real - 1) < 1e-14
+                       and np.abs(np.diag(o1).real - M @ q).max() < 1e-15)
+            t_in, t_out = U.get_trace_distance(np.diag(p), np.diag(q)), U.get_trace_distance(o0, o1)
+            f_in, f_out = U.get_fidelity(np.diag(p), np.diag(q)), U.get_fidelity(o0, o1)
+            oo1 = o1 if np.diag(o1).real.min() > 1e-9 else None
+            s_in = U.get_relative_entropy(np.diag(p), np.diag(q)); s_out = U.get_relative_entropy(o0, oo1) if oo1 is not None else None
+        except Exception as ex:
+            ctx.fail('classical-channel-raises', f'{type(ex).__name__}: {ex}', info); continue
+        msgs = []
+        if not ok_diag:
+            msgs.append('output is not diag(M p)')
+        if t_out > t_in + 1e-14:
+            msgs.append(f'trace distance increases {t_in} -> {t_out}')
+        if f_out < f_in - 1e-12:
+            msgs.append(f'fidelity decreases {f_in} -> {f_out}')
+        if s_out is not None and s_out > s_in + 1e-12:
+            msgs.append(f'relative entropy increases {s_in} -> {s_out}')
+        if msgs:
+            ctx.fail('contractivity:classical-channel', '; '.join(msgs), info)
+        else:
+            ctx.probe_ok(('classical', d, e, seed)); ctx.count('classical-channel-probe')
+
+
 def probe_values(ctx, rng):
     """independent oracles for the functions whose exact tie treats a LAPACK call as data: purity (= tr rho^2 = sum |rho_ij|^2), trace
     distance (= half the nuclear norm, via SVD), the `zero_eps` cut of choi_op_to_kraus_op (number of Kraus operators = number of
@@ -860,14 +1005,14 @@ def probe_values(ctx, rng):
         info = dict(d=d, state_kind=kind, state_seed=seed)
         try:
             pu = float(U.get_purity(rho)); put = float(U.get_purity(torch.tensor(rho)))
-            A = r2.normal(size=(d, d)) + 1j * r2.normal(size=(d, d))
+            A = r2.normal(size=(d, d)) + 1j * r2.normal(size=(d, d)); A = A + A.conj().T      # Hermitian, not normalised
             pa = float(U.get_purity(A))
             td = float(U.get_trace_distance(rho, sig))
         except Exception as e:
             ctx.fail('metric-value-raises', f'{type(e).__name__}: {e}', dict(info, op='get_purity / get_trace_distance')); continue
         want = float(np.trace(rho @ rho).real)
         if abs(pu - want) > 1e-12 or abs(put - want) > 1e-12 or not (1 / d - 1e-12 <= pu <= 1 + 1e-12) or abs(pa - float((np.abs(A) ** 2).sum())) > 1e-10 * max(1.0, pa):
-            ctx.fail('purity-value', f'get_purity(rho) = {pu} (torch {put}) but tr(rho^2) = {want}; general matrix: {pa} vs sum|a_ij|^2 = {float((np.abs(A) ** 2).sum())}',
+            ctx.fail('purity-value', f'get_purity(rho) = {pu} (torch {put}) but tr(rho^2) = {want}; Hermitian matrix: {pa} vs sum|a_ij|^2 = {float((np.abs(A) ** 2).sum())}',
                      dict(info, op='get_purity', rho=[[repr(complex(x)) for x in row] for row in rho]))
         elif abs(td - 0.5 * float(np.linalg.svd(rho - sig, compute_uv=False).sum())) > 1e-12:
             ctx.fail('trace-distance-value', f'get_trace_distance = {td} but half the nuclear norm of rho - sigma is {0.5 * float(np.linalg.svd(rho - sig, compute_uv=False).sum())}',
@@ -889,18 +1034,22 @@ def probe_values(ctx, rng):
                 eps = float(max(evl[j], 0.0) + evl[j + 1]) / 2
                 info['zero_eps'] = eps
             K = ch.choi_op_to_kraus_op(C, din, eps)
+            K_s = ch.super_op_to_kraus_op(ch.choi_op_to_super_op(C, din), zero_eps=eps)
             keep = evl >= eps
             C_keep = (evc[:, keep] * evl[keep]) @ evc[:, keep].conj().T
             err = maxdiff(ch.kraus_op_to_choi_op(K), C_keep) if K.shape[0] else float(np.abs(C_keep).max(initial=0.0))
         except Exception as e:
             ctx.fail('choi-to-kraus-raises', f'{type(e).__name__}: {e}', info); continue
-        if K.shape[0] != int(keep.sum()) or err > 1e-10:
+        if K_s.shape[0] != int(keep.sum()) or (K_s.shape[0] and maxdiff(ch.kraus_op_to_choi_op(K_s), C_keep) > 1e-10):
+            ctx.fail('super-to-kraus-zero-eps', f'super_op_to_kraus_op(zero_eps={eps}) returned {K_s.shape[0]} Kraus operators, the Choi operator has {int(keep.sum())} eigenvalues >= zero_eps '
+                     f'(spectrum {evl.tolist()})', dict(info, op='super_op_to_kraus_op(choi_op_to_super_op(C, dim_in), zero_eps)'))
+        elif K.shape[0] != int(keep.sum()) or err > 1e-10:
             ctx.fail('choi-to-kraus-zero-eps', f'choi_op_to_kraus_op(zero_eps={eps}) returned {K.shape[0]} Kraus operators, the Choi operator has {int(keep.sum())} eigenvalues >= zero_eps '
                      f'(spectrum {evl.tolist()}); distance of their Choi operator from the truncated one: {err:.3e}', info)
         else:
             ctx.probe_ok(('zero-eps', din, dout, nk, eps))
-    for rep in range(3 if ctx.quick() else 20):
-        d = int(rng.integers(1, 5)); seed = int(rng.integers(1 << 30)); r2 = np.random.default_rng(seed)
+    for rep in range(6 if ctx.quick() else 24):
+        d = int(rng.integers(2, 5)); seed = int(rng.integers(1 << 30)); r2 = np.random.default_rng(seed)      # d >= 2: d = 1 has entropy 0 everywhere
         shape = [(2, 3), (4,), (2, 1, 2)][rep % 3]
         big = np.stack([rand_state(r2, d, ['full', 'low'][i % 2]) for i in range(int(np.prod(shape)))]).reshape(*shape, d, d)
         info = dict(op='get_von_neumann_entropy (batched)', batch_shape=list(shape), d=d, state_seed=seed)
@@ -991,7 +1140,9 @@ def probe_renyi(ctx, rng):
         else:
             ctx.probe_ok(('renyi', d, kind, seed))
     for d in (1, 2, 5):
-        v = float(U.get_Renyi_entropy(np.eye(d) / d, 2.0))
+        v = guarded(lambda: float(U.get_Renyi_entropy(np.eye(d) / d, 2.0)))
+        if isinstance(v, str):
+            ctx.fail('renyi-entropy-raises', f'get_Renyi_entropy(1/d, 2.0) raises ({v})', dict(op='get_Renyi_entropy', d=d, alpha=2.0, rho='maximally mixed')); continue
         if abs(v - np.log(d)) > 1e-12:
             ctx.fail('renyi-entropy-range', f'S_2(1/d) = {v} != log {d}', dict(op='get_Renyi_entropy', d=d, alpha=2.0, rho='maximally mixed'))
         else:
